@@ -653,6 +653,56 @@ private:
   }
 
   
+  // The Boolean x is about to be redefined: the facts "if b becomes
+  // true then x is true" recorded for other Booleans b are stale.
+  void forget_bool_in_implications(const variable_t &x) {
+    transform_if(m_bool_to_bools,
+		 [&x](const bool_set_t &s) { return s.at(x);},
+		 [&x](bool_set_t &s) { s -= x;});
+  }
+
+  // The variable v was modified after some constraints mentioning it
+  // were recorded: those constraints must not be used anymore once v
+  // is marked again as unchanged.
+  void forget_constraints_with(const variable_t &v) {
+    transform_if(m_bool_to_lincsts,
+		 [&v](const lincst_set_t &s) {
+		   for (auto const &c : s) {
+		     for (auto const &w : c.variables()) {
+		       if (w == v) return true;
+		     }
+		   }
+		   return false;
+		 },
+		 [&v](lincst_set_t &s) {
+		   std::vector<linear_constraint_t> stale;
+		   for (auto const &c : s) {
+		     for (auto const &w : c.variables()) {
+		       if (w == v) { stale.push_back(c); break; }
+		     }
+		   }
+		   for (auto const &c : stale) { s -= c; }
+		 });
+    transform_if(m_bool_to_refcsts,
+		 [&v](const refcst_set_t &s) {
+		   for (auto const &c : s) {
+		     for (auto const &w : c.variables()) {
+		       if (w == v) return true;
+		     }
+		   }
+		   return false;
+		 },
+		 [&v](refcst_set_t &s) {
+		   std::vector<reference_constraint_t> stale;
+		   for (auto const &c : s) {
+		     for (auto const &w : c.variables()) {
+		       if (w == v) { stale.push_back(c); break; }
+		     }
+		   }
+		   for (auto const &c : stale) { s -= c; }
+		 });
+  }
+
   template<class BoolToCstEnv>
   void propagate_assign_bool_var(BoolToCstEnv &env,
 				 const variable_t &x, const variable_t &y,
@@ -665,9 +715,11 @@ private:
 	// cst is either linear_constraint or reference_constraint
         auto cst = *(csts.begin());
         env.set(x, typename BoolToCstEnv::mapped_type(cst.negate()));
-      } else if (csts.size() > 1) { 
+      } else {
 	// we do not negate multiple conjunctions because it would
-	// become a disjunction so we give up
+	// become a disjunction so we give up. If nothing is known
+	// about y then nothing is known about x either (its old
+	// constraints must not survive the assignment).
         env -= x;
       }
     }
@@ -854,8 +906,12 @@ private:
 			      const linear_constraint_t &cst) {
     if (cst.is_tautology()) {
       m_product.first().set_bool(x, boolean_value::get_true());
+      m_bool_to_lincsts -= x;
+      m_bool_to_refcsts -= x;
     } else if (cst.is_contradiction()) {
       m_product.first().set_bool(x, boolean_value::get_false());	
+      m_bool_to_lincsts -= x;
+      m_bool_to_refcsts -= x;
     } else {
       if (m_product.second().entails(cst)) {
 	// -- definitely true
@@ -868,12 +924,16 @@ private:
 	m_product.first().set_bool(x, boolean_value::top());
       }
       
-      m_bool_to_lincsts.set(x, lincst_set_t(cst));
       // We assume all variables in cst are unchanged unless the
       // opposite is proven
       for (auto const &v : cst.variables()) {
+	if (!m_unchanged_vars.at(v)) {
+	  forget_constraints_with(v);
+	}
 	m_unchanged_vars += v;
       }
+      m_bool_to_refcsts -= x;
+      m_bool_to_lincsts.set(x, lincst_set_t(cst));
     }
     m_bool_to_bools -= x;
   }
@@ -885,8 +945,12 @@ private:
 			      const reference_constraint_t &cst) {
     if (cst.is_tautology()) {
       m_product.first().set_bool(x, boolean_value::get_true());
+      m_bool_to_lincsts -= x;
+      m_bool_to_refcsts -= x;
     } else if (cst.is_contradiction()) {
       m_product.first().set_bool(x, boolean_value::get_false());	
+      m_bool_to_lincsts -= x;
+      m_bool_to_refcsts -= x;
     } else {
       Dom inv1(m_product.second());
       inv1.ref_assume(cst);
@@ -904,12 +968,16 @@ private:
 	  m_product.first().set_bool(x, boolean_value::top());
 	}
       }
-      m_bool_to_refcsts.set(x, refcst_set_t(cst));
       // We assume all variables in cst are unchanged unless the
       // opposite is proven
       for (auto const &v : cst.variables()) {
+	if (!m_unchanged_vars.at(v)) {
+	  forget_constraints_with(v);
+	}
 	m_unchanged_vars += v;
       }
+      m_bool_to_lincsts -= x;
+      m_bool_to_refcsts.set(x, refcst_set_t(cst));
     }
     m_bool_to_bools -= x;
 
@@ -1288,6 +1356,7 @@ public:
       return;
     }
 
+    forget_bool_in_implications(x);
     m_product.assign_bool_cst(x, cst);
     reduce_num_cst_to_bool(x, cst);
 
@@ -1309,6 +1378,7 @@ public:
       return;
     }
 
+    forget_bool_in_implications(x);
     m_product.assign_bool_ref_cst(x, cst);
     reduce_ref_cst_to_bool(x, cst);
     
@@ -1331,6 +1401,9 @@ public:
       return;
     }
 
+    if (!(x == y)) {
+      forget_bool_in_implications(x);
+    }
     m_product.assign_bool_var(x, y, is_negated);
     propagate_assign_bool_var(m_bool_to_lincsts, x, y, is_negated);
     propagate_assign_bool_var(m_bool_to_refcsts, x, y, is_negated);
@@ -1360,6 +1433,7 @@ public:
       return;
     }
 
+    forget_bool_in_implications(x);
     m_product.apply_binary_bool(op, x, y, z);
 
     // // --- for reduction from boolean to the numerical domain
@@ -1430,6 +1504,7 @@ public:
       if (b1 == b2) {
 	assign_bool_var(lhs, b1, false);
       } else {
+	forget_bool_in_implications(lhs);
 	m_product.select_bool(lhs, cond, b1, b2);
 	fwd_reduction_select_bool(lhs, cond, b1, b2);
 	auto val1 = m_product.first().get_bool(b1);
